@@ -1742,7 +1742,23 @@ class Interp:
                 return GenList(lab, self.expr(e.elt, sub, mod))
             return Unk('list comprehension over %s' % up(g.iter)[:50], e)
         if isinstance(e, ast.JoinedStr):
-            return Unk('f-string', e)
+            # an f-string: its literal pieces, with the formatted values kept in order (as '%s' fields of a Fmt when any of them is symbolic)
+            fmt_, vals_ = '', []
+            for part_ in e.values:
+                if isinstance(part_, ast.Constant) and isinstance(part_.value, str):
+                    fmt_ += part_.value.replace('%', '%%')
+                elif isinstance(part_, ast.FormattedValue) and part_.format_spec is None and part_.conversion == -1:
+                    v_ = self.expr(part_.value, env, mod)
+                    if isinstance(v_, (str, int, float)) and not isinstance(v_, bool):
+                        fmt_ += str(v_).replace('%', '%%')
+                    elif isinstance(v_, (Arr, bool, type(None), tuple, Shape)):
+                        fmt_ += '%s'
+                        vals_.append(v_)
+                    else:
+                        return Unk('f-string', e)
+                else:
+                    return Unk('f-string', e)
+            return Fmt(fmt_, tuple(vals_)) if vals_ else fmt_.replace('%%', '%')
         if isinstance(e, ast.Slice):
             # a slice met as a value (the key handed to a modelled library object): the same as slice(lo, hi, step)
             return _SliceVal(*[(self.expr(x_, env, mod) if x_ is not None else None) for x_ in (e.lower, e.upper, e.step)])
